@@ -54,7 +54,7 @@ pub fn decode_game(data: &[u8]) -> (Case, Profile) {
             let gold_to_move = c.u8() & 1 == 0;
             let mn_sel = c.u8();
             let picks: Vec<(u8, u8, u8)> = (0..n).map(|_| (c.u8(), c.u8(), c.u8())).collect();
-            Start::Pos(gen::build_pos(&RawPos { full, same_types, picks, gold_to_move, mn_sel }, PosMode::GameStart))
+            Start::Pos(gen::build_pos(&RawPos { full, same_types, picks, gold_to_move, mn_sel, keep_hanging: false, last_rabbits: k == 5 }, PosMode::GameStart))
         }
     };
     let mut ops = vec![];
@@ -110,7 +110,7 @@ pub struct FuzzFail {
 /// observer (used when converting an artifact for a specific check), None = all.
 pub fn game_target(data: &[u8], only: Option<&str>) -> Result<(), FuzzFail> {
     let (case, profile) = decode_game(data);
-    let opts = WalkOpts { profile, expand: None };
+    let opts = WalkOpts { profile, expand: None, follow_norep: false, inject: crate::drive::Inject::No };
     let mut st = Stats::default();
     st.frozen = true;
     let mut all;
